@@ -2,6 +2,8 @@
 
 from __future__ import annotations
 
+import json
+
 import jax
 import numpy as np
 
@@ -179,16 +181,61 @@ def check_env(ctx: Ctx, case):
     ctx.count(nontrivial=saturated or ended, classes=[name, tags["stack"]] + ["saturated_a_bound"] * saturated + ["episode_end"] * ended + [f"{name}:saturated"] * saturated, key=[name, opts, stack, case["key"]])
 
 
+def bool_options(name):
+    """Boolean constructor options of a built-in environment (found by introspection)."""
+    import inspect
+
+    from lerax.env import classic_control as cc
+    from lerax.env import mujoco as mj
+    from lerax.env.unitree import g1
+
+    cls = getattr(cc, name) if name in CLASSIC else getattr(mj, name) if name in MUJOCO else getattr(g1, name)
+    return {k: v.default for k, v in inspect.signature(cls.__init__).parameters.items() if isinstance(v.default, bool)}
+
+
+def check_signature(ctx: Ctx, case):
+    """Constructor configurations without running the physics: the abstract (shape, dtype) signature of reset() and step()
+    under jax.eval_shape against the declared spaces - decides the shape/dtype clauses for every flag combination drawn."""
+    from lerax.space import Box
+
+    name, opts = case["env"], case["opts"]
+    env = build_env(name, opts, [])
+    tags = {"env": name, "opts": json.dumps(opts, sort_keys=True)}
+
+    def probe(key):
+        k0, k1, k2 = jr.split(key, 3)
+        state, obs, _ = env.reset(key=k0)
+        a = env.action_space.sample(key=k1)
+        _, obs2, r, term, trunc, _ = env.step(state, a, key=k2)
+        return obs, obs2, a, r, term, trunc
+
+    obs, obs2, a, r, term, trunc = jax.eval_shape(probe, jr.key(0))
+    osp, asp = env.observation_space, env.action_space
+    if isinstance(osp, Box):
+        for which, o in (("reset", obs), ("step", obs2)):
+            ctx.check(tuple(o.shape) == tuple(osp.low.shape), "C02/observation-shape-differs-from-space", tags=tags, which=which, shape=list(o.shape), space=list(osp.low.shape))
+            ctx.check(o.dtype == osp.low.dtype, "C02/observation-dtype-differs-from-space", tags=tags, which=which, dtype=str(o.dtype), space=str(osp.low.dtype))
+    if isinstance(asp, Box):
+        ctx.check(tuple(a.shape) == tuple(asp.low.shape) and a.dtype == asp.low.dtype, "C02/action-sample-signature-differs-from-space", tags=tags, shape=list(a.shape), dtype=str(a.dtype))
+    ctx.check(r.shape == () and jnp.issubdtype(r.dtype, jnp.floating), "C02/reward-not-a-float-scalar", tags=tags, shape=list(r.shape), dtype=str(r.dtype))
+    for nm, f in (("terminal", term), ("truncated", trunc)):
+        ctx.check(f.shape == () and f.dtype == jnp.bool_, f"C02/{nm}-not-a-boolean-scalar", tags=tags, shape=list(f.shape), dtype=str(f.dtype))
+    ctx.count(nontrivial=bool(opts), classes=[name, "signature"], key=[name, tags["opts"]])
+
+
 def worker(ctx: Ctx, payload):
     for case in payload:
         try:
+            if case.get("part") == "signature":
+                ctx.call("signature", check_signature, case)
+                continue
             ctx.call("rollout", check_env, case)
         except Violation as v:
             ctx.violations.append(v)
             ctx.skip_buckets.add(v.bucket)
 
 
-PARTS = {"rollout": check_env}
+PARTS = {"rollout": check_env, "signature": check_signature}
 
 OPTS = {
     "CartPole": [{}, {"euler": True}, {"x_threshold": 1.0, "theta_threshold_radians": 0.1}],
@@ -213,7 +260,9 @@ def run(ctx: Ctx):
         "corner, zero/middle, a held corner, energy pumping}; every observation must satisfy shape/dtype/bounds/NaN-freeness of the "
         "declared space (and the space's own contains), sampled actions are members, rewards finite float scalars, flags boolean "
         "scalars, and a second call / a second environment object gives identical outputs. Non-trivial: a trajectory in which an "
-        "observation coordinate reaches a finite bound or an episode ends."
+        "observation coordinate reaches a finite bound or an episode ends. Part signature: every boolean constructor flag of every "
+        "environment toggled singly / all / in seeded random combinations; reset() and step() traced with jax.eval_shape and the "
+        "emitted (shape, dtype) compared with the declared spaces."
     )
     ctx.assumptions = ["states are those reachable through the auto-resetting step()", "default float32 mode"]
     payloads = []
@@ -236,6 +285,18 @@ def run(ctx: Ctx):
         payloads.append(cases)
     for name in G1:
         payloads.append([{"env": name, "opts": {}, "stack": [], "T": ctx.n(12, 100), "n_traj": ctx.n(2, 8), "key": ctx.seed * 31}])
+    # every boolean constructor flag toggled on its own, all toggled, and seeded random combinations (trace only)
+    rng = np.random.default_rng(ctx.seed + 2)
+    sig = []
+    for name in CLASSIC + MUJOCO + G1:
+        flags = bool_options(name)
+        combos = [{k: not v} for k, v in flags.items()]
+        if len(flags) > 1:
+            combos.append({k: not v for k, v in flags.items()})
+            for _ in range(ctx.n(2, 12)):
+                combos.append({k: (not v) for k, v in flags.items() if rng.random() < 0.5})
+        sig.append([{"part": "signature", "env": name, "opts": c} for c in [{}] + [c for c in combos if c]])
+    payloads += sig
     run_pool(ctx, "checks.c02_spaces_along_rollouts", "worker", payloads, procs=16)
     for name in ("MountainCar", "Acrobot", "Pendulum"):
         if ctx.classes.get(f"rollout:{name}:saturated", 0) == 0 and not ctx.violations:
